@@ -13,6 +13,7 @@ ID = 'C17'
 LEAN_MODULES = ['Pfst.Props.C17']
 THEOREMS = [
     'Pfst.C17.match_self', 'Pfst.C17.match_one_leaf', 'Pfst.C17.match_same_structure',
+    'Pfst.C17.match_pure', 'Pfst.C17.m_wrap_extends',
     'Pfst.C17.leaf_table_ok', 'Pfst.C17.leaf_table_nonempty', 'Pfst.C17.prefilter_sound',
     'Pfst.C17.search_eq_filter', 'Pfst.C17.search_eq_filter_all',
     'Pfst.C17.list_regex_partial', 'Pfst.C17.list_regex_false_reentry',
@@ -23,7 +24,12 @@ RULE = ('LIST: pattern sequences over {a, b, ..., M(t=...), M(t=a), MTAG(t)} x q
         'tags, {m,n} up to 3, three tags) — each against ALL 364 element sequences over {a,b,c} of length <= 5, as FST '
         'and as pure AST targets; real result (accept/reject + every capture as index ranges) compared with the Lean '
         'model (must agree, the known re-entry defect included) and with re.fullmatch on the letter encoding (the property). '
-        'STRUCTURE: corpus trees vs the pattern built from their own AST, vs every kind of single-leaf mutant, '
+        'PURITY: a structural dump of every pattern object and of the shared containers of fst.match is compared before '
+        'and after the calls of every list / tree / search case; every anonymous tagging pattern (M with static tags '
+        'only, MCB, MMAYBE, MNOT, MRE, MTAG, MOR/MAND over such) is shared with each of 16 wrapper shapes (M, M over M, '
+        'tagged M, MOR, MAND, MMAYBE, MNOT, node fields, call args, star / plus / sublist quantifiers, AST field), run '
+        'through match/search/sub histories, and must then give the results (tags with key order) of an equal fresh '
+        'pattern. STRUCTURE: corpus trees vs the pattern built from their own AST, vs every kind of single-leaf mutant, '
         'formatted vs re-layout vs pure AST, repeated/shuffled call orders. SEARCH: list(search(p)) vs filtered walk: '
         'base patterns of four kinds (type-exact, type-plus-field incl. MTYPES with fields, AST instances incl. '
         'expr_context instances, source/regex/callback patterns), every unary combinator (M, tagged M, MNOT, tagged MNOT, '
@@ -136,9 +142,14 @@ def _real_list_case(arg):
         pat = L.build_list_pattern(ps, lit_as, variant)
     except Exception as e:          # noqa: BLE001
         return {'build_exc': f'{type(e).__name__}: {e}'}
+    import c17_pure
+    before = (c17_pure.dump(pat), c17_pure.module_state())
     out = []
     for xs, f, idx in _targets():
         out.append(L.real_list_match(pat, f.a if pure else f, _index_of(idx)))
+    after = (c17_pure.dump(pat), c17_pure.module_state())
+    if after != before:
+        return {'mutated': c17_pure.first_diff(list(before), list(after))}
     return json.dumps(out, separators=(',', ':'))       # compact: millions of small results are kept until the sweep
 
 
@@ -282,6 +293,11 @@ def _sweep_list(ctx):
     reported = {}
     for pi, (ps, a, real) in enumerate(zip(pats, args, reals)):
         real = json.loads(real) if isinstance(real, str) else real
+        if isinstance(real, dict) and 'mutated' in real:
+            ctx.fail(f'C17|pattern-purity|list-{L.shape(ps)}|pattern-object-mutated',
+                     f'matching the list pattern {ps} changed the pattern object or a shared container: {real["mutated"]}',
+                     {'kind': 'list-purity', 'ps': ps, 'build': list(a[1:])})
+            continue
         if isinstance(real, dict):
             ctx.fail(f'C17|list-quantifier|{L.shape(ps)}|build-raised', f'pattern constructor raised: {real}', {'ps': ps, 'build': a[1:]})
             continue
@@ -354,6 +370,8 @@ def sweep(ctx):
     _sweep_list(ctx)
     import c17_tree
     c17_tree.sweep(ctx)
+    import c17_pure
+    c17_pure.sweep(ctx)
 
 
 def search(ctx):
@@ -401,6 +419,14 @@ def replay(ctx, data):
         cls = _classify(w['ps'], w['xs'], r, L.re_oracle(w['ps'], w['xs']))
         if cls:
             ctx.fail('replay', f'{cls}: pfst gives {r}, regex {w.get("regex")}', w)
+    elif kind == 'purity':
+        import c17_pure
+        c17_pure.replay(ctx, w)
+    elif kind == 'list-purity':
+        b = w.get('build') or ['str', 0, False]
+        r = _real_list_case((w['ps'], b[0], b[1], b[2]))
+        if isinstance(r, dict) and 'mutated' in r:
+            ctx.fail('replay', f'pattern object changed by matching: {r["mutated"]}', w)
     elif kind == 'list-nullable':
         from fst import FST
         import re as _re
